@@ -8,8 +8,10 @@
 
 #include "cntgs/detail/typeTraits.hpp"
 
-#include <deque>
 #include <iterator>
+#include <string>
+#include <string_view>
+#include <vector>
 #include <version>
 
 namespace cntgs::detail
@@ -42,24 +44,36 @@ constexpr auto operator_arrow_produces_pointer_to_iterator_reference_type() noex
     }
 }
 
-// Random access iterators that pass the checks below although their elements are not stored at increasing addresses.
-template <class I>
-inline constexpr bool IS_REVERSE_ITERATOR = false;
-
-template <class I>
-inline constexpr bool IS_REVERSE_ITERATOR<std::reverse_iterator<I>> = true;
+// Before C++20 an iterator cannot be asked whether its elements are contiguous in memory: a random access iterator with
+// lvalue references and a pointer-returning operator-> may still stride, wrap around or run backwards. Only iterators
+// that are known to be contiguous are treated as such.
+template <class I, class... Known>
+inline constexpr bool IS_ANY_OF = (std::is_same_v<I, Known> || ...);
 
 template <class I, class = void>
-inline constexpr bool IS_DEQUE_ITERATOR = false;
+inline constexpr bool IS_KNOWN_CONTIGUOUS_ITERATOR = false;
+
+template <class T>
+inline constexpr bool IS_KNOWN_CONTIGUOUS_ITERATOR<T*, void> = true;
 
 template <class I>
-inline constexpr bool IS_DEQUE_ITERATOR<I, std::void_t<typename std::deque<typename std::iterator_traits<I>::value_type>::iterator>> =
-    std::is_same_v<I, typename std::deque<typename std::iterator_traits<I>::value_type>::iterator> ||
-    std::is_same_v<I, typename std::deque<typename std::iterator_traits<I>::value_type>::const_iterator>;
+inline constexpr bool IS_KNOWN_CONTIGUOUS_ITERATOR<
+    I, std::enable_if_t<std::is_class_v<I> && !std::is_same_v<bool, typename std::iterator_traits<I>::value_type>>> =
+    detail::IS_ANY_OF<I, typename std::vector<typename std::iterator_traits<I>::value_type>::iterator,
+                      typename std::vector<typename std::iterator_traits<I>::value_type>::const_iterator,
+                      std::string::iterator, std::string::const_iterator, std::wstring::iterator,
+                      std::wstring::const_iterator, std::u16string::iterator, std::u16string::const_iterator,
+                      std::u32string::iterator, std::u32string::const_iterator, std::string_view::const_iterator,
+                      std::wstring_view::const_iterator, std::u16string_view::const_iterator,
+                      std::u32string_view::const_iterator>;
 
 template <class I>
 inline constexpr bool CONTIGUOUS_ITERATOR_V =
-    !detail::IS_REVERSE_ITERATOR<I> && !detail::IS_DEQUE_ITERATOR<I> &&
+#if defined(__cpp_lib_concepts) && defined(__cpp_lib_ranges)
+    std::contiguous_iterator<I> &&
+#else
+    detail::IS_KNOWN_CONTIGUOUS_ITERATOR<I> &&
+#endif
     detail::IS_DERIVED_FROM<typename std::iterator_traits<I>::iterator_category, std::random_access_iterator_tag> &&
     std::is_lvalue_reference_v<typename std::iterator_traits<I>::reference> &&
     std::is_same_v<typename std::iterator_traits<I>::value_type,
